@@ -22,7 +22,8 @@
 (*                                                                             *)
 (* One action per API call: Store, Get, Gap, GapBackfill, GovBatch,            *)
 (* NonGovBatch; and for                                                        *)
-(* C16 the environment steps Ack (the caller learned that Store succeeded),    *)
+(* C16 StoreWhileClosed (a store the closed store refuses - or acknowledges),   *)
+(* the environment steps Ack (the caller learned that Store succeeded),        *)
 (* Crash (SIGKILL: acknowledged writes survive, writes not yet acknowledged    *)
 (* may or may not) and Reopen.                                                 *)
 EXTENDS Naturals, Sequences, FiniteSets, TLC
@@ -141,6 +142,17 @@ Store(v) ==
     /\ up
     /\ Becomes(StoreF(Cur, v))
     /\ ret' = [op |-> "Store", id |-> v.id]
+    /\ UNCHANGED up
+
+\* db.StoreSignedVAA on a store that is not open (a store racing with shutdown: Close, then Store), or any other call
+\* whose commit Badger refuses.  The reply decides: a call that returns nil has acknowledged the write - it is the
+\* content from then on and every later lookup, before and after reopen or kill, must find it; a refused call (error)
+\* may leave nothing behind (its bytes are tolerated, like those of any unacknowledged write, should they turn up).
+StoreWhileClosed(v, acknowledged) ==
+    /\ ~up
+    /\ IF acknowledged THEN Becomes(AckF(StoreF(Cur, v), v.id))
+       ELSE Becomes([StoreF(Cur, v) EXCEPT !.vaas = vaas])
+    /\ ret' = [op |-> "StoreWhileClosed", id |-> v.id, acknowledged |-> acknowledged]
     /\ UNCHANGED up
 
 \* The caller of Store saw it return success (C16: the child printed its acknowledgement line).
